@@ -85,6 +85,15 @@ func (fx *FuncExec) execCall(fn *ssa.Function, st *State, reach *Term, res ssa.V
 		setRes(v)
 		return r
 	}
+	// range-over-func: an iterator of unknown code called with the synthetic yield closure that holds the loop body.
+	// It may run the body any number of times and do nothing else to this package's state.
+	if len(args) == 1 {
+		if yf, ok := args[0].(VFunc); ok && yf.fn != nil && yf.fn.Synthetic == "range-over-func yield" {
+			r := fx.rangeFunc(fn, st, reach, yf, src)
+			setRes(fx.freshValueR("rangefunc", resType, st, r))
+			return r
+		}
+	}
 	fx.note("call through a function value of unknown identity: everything reachable is havocked")
 	fx.havocAll(st, reach)
 	setRes(fx.freshValueR("dyn", resType, st, reach))
@@ -742,4 +751,149 @@ func (fx *FuncExec) invokeOrdinal(fn *ssa.Function, cc *ssa.CallCommon) int {
 		}
 	}
 	return 0
+}
+
+// rangeFunc models `for ... := range seq { body }` where seq comes from code outside the package: the body (the yield
+// closure) runs zero or more times with arbitrary elements. Like a loop without invariants: what the body writes is
+// found by running it symbolically until the set is stable, those locations are forgotten, and the body is executed
+// once more from that state to generate its own obligations. The state after the loop is the forgetful one.
+func (fx *FuncExec) rangeFunc(fn *ssa.Function, st *State, reach *Term, yf VFunc, src string) *Term {
+	ts := fx.ts
+	fx.note("range over an iterator function: its body runs any number of times with arbitrary elements")
+	sig := yf.fn.Signature
+	mkArgs := func(s *State, r *Term) []Value {
+		var as []Value
+		for i := 0; i < sig.Params().Len(); i++ {
+			as = append(as, fx.freshValueR("yield", sig.Params().At(i).Type(), s, r))
+		}
+		return as
+	}
+	wc := map[*ssa.Alloc]bool{}
+	wh := map[string]bool{}
+	havoc := func(s *State, r *Term, hint string) {
+		for _, a := range sortedAllocs(wc) {
+			if _, ok := s.cells[a]; ok {
+				s.cells[a] = fx.freshValue(hint+"."+a.Comment, a.Type().(*types.Pointer).Elem(), s)
+			}
+		}
+		for _, k := range sortedStrings(wh) {
+			if strings.HasPrefix(k, "ghost:") {
+				continue
+			}
+			if k == allocKey {
+				old := fx.heapGet(s, allocKey, SInt)
+				nw := ts.Fresh("alloc."+hint, SInt)
+				fx.addFact(r, ts.Le(old, nw))
+				fx.heapSet(s, allocKey, nw)
+				continue
+			}
+			if srt, ok := fx.eng.heapSorts[k]; ok {
+				fx.heapSet(s, k, ts.Fresh(hint+"."+k, srt))
+			}
+		}
+	}
+	for round := 0; round < 5; round++ {
+		start := st.Clone()
+		start.wcells, start.wheap = map[*ssa.Alloc]bool{}, map[string]bool{}
+		havoc(start, reach, "dw")
+		start.wcells, start.wheap = map[*ssa.Alloc]bool{}, map[string]bool{}
+		fx.discover++
+		nfacts, nobls := len(fx.facts), len(fx.obls)
+		fx.inline(start, reach, yf.fn, yf.bind, mkArgs(start, reach), sig.Results(), src)
+		fx.facts, fx.obls = fx.facts[:nfacts], fx.obls[:nobls]
+		fx.discover--
+		grew := false
+		for a := range start.wcells {
+			if !wc[a] {
+				wc[a], grew = true, true
+			}
+		}
+		for k := range start.wheap {
+			if !wh[k] {
+				wh[k], grew = true, true
+			}
+		}
+		if !grew {
+			break
+		}
+	}
+	// the `requires` clauses of the yield closure's (inline) contract are the loop invariant: they hold before the
+	// loop, are assumed for every run of the body and after the loop, and are checked at the end of the body
+	var invs []Clause
+	if ic := fx.eng.contractFor(yf.fn); ic != nil && ic.Inline {
+		invs = ic.Requires
+	}
+	evalInv := func(c Clause, s *State, r *Term) (*Term, error) {
+		saved := map[ssa.Value]Value{}
+		for i, fv := range yf.fn.FreeVars {
+			if i < len(yf.bind) {
+				if old, ok := s.vals[fv]; ok {
+					saved[fv] = old
+				}
+				s.vals[fv] = yf.bind[i]
+			}
+		}
+		defer func() {
+			for _, fv := range yf.fn.FreeVars {
+				if old, ok := saved[fv]; ok {
+					s.vals[fv] = old
+				} else {
+					delete(s.vals, fv)
+				}
+			}
+		}()
+		return fx.evalClause(c, &cenv{fx: fx, fn: yf.fn, st: s, old: fx.entryFor(fn), binds: map[string]Value{}, body: true, reach: r, params: map[string]Value{}})
+	}
+	for _, c := range invs {
+		if t, err := evalInv(c, st, reach); err != nil {
+			fx.addObl("shape", "rangefunc:"+c.Label, err.Error(), reach, ts.False())
+		} else {
+			fx.addObl("inv-entry", "rangefunc:"+c.Label, c.Expr, reach, t)
+		}
+	}
+	havoc(st, reach, "rf")
+	for _, c := range invs {
+		if t, err := evalInv(c, st, reach); err == nil {
+			fx.addFact(reach, t)
+		}
+	}
+	for a := range wc {
+		st.wcells[a] = true
+	}
+	for k := range wh {
+		st.wheap[k] = true
+	}
+	// the body once, for its obligations, from the forgetful state
+	body := st.Clone()
+	// the compiler's protocol cell: the body is entered with it at 0 (an iterator calling yield after the loop has
+	// ended would panic; iterators of the libraries used do not)
+	for i, fv := range yf.fn.FreeVars {
+		if strings.HasPrefix(fv.Name(), "jump$") && i < len(yf.bind) {
+			if pt, ok := fv.Type().(*types.Pointer); ok {
+				fx.store(body, reach, yf.bind[i], VInt{ts.Int(0)}, pt.Elem())
+			}
+		}
+	}
+	it := ts.Fresh("rangefunc.iter", SBool)
+	br := ts.And(reach, it)
+	er, _ := fx.inline(body, br, yf.fn, yf.bind, mkArgs(body, reach), sig.Results(), src)
+	for _, c := range invs {
+		if t, err := evalInv(c, body, er); err == nil {
+			fx.addObl("inv-preserve", "rangefunc:"+c.Label, c.Expr, er, t)
+		}
+	}
+	// the protocol cell is never left at -1 by a completed call of the body (checked), so it is not -1 afterwards
+	for i, fv := range yf.fn.FreeVars {
+		if strings.HasPrefix(fv.Name(), "jump$") && i < len(yf.bind) {
+			if pt, ok := fv.Type().(*types.Pointer); ok {
+				if v, ok := fx.load(body, er, yf.bind[i], pt.Elem()).(VInt); ok {
+					fx.addObl("inv-preserve", "rangefunc:protocol", "the compiler's jump cell is not left at -1", er, ts.Ne(v.t, ts.Int(-1)))
+				}
+				if v, ok := fx.load(st, reach, yf.bind[i], pt.Elem()).(VInt); ok {
+					fx.addFact(reach, ts.Ne(v.t, ts.Int(-1)))
+				}
+			}
+		}
+	}
+	return reach
 }
